@@ -122,6 +122,7 @@ type State struct {
 	callNames map[string]nameBind
 	prevHeap  *Heap
 	prevNames map[string]nameBind
+	lockSnap  map[*Term]*Heap
 }
 
 func (st *State) clone() *State {
@@ -148,6 +149,12 @@ func (st *State) clone() *State {
 		n.ghost[k] = v
 	}
 	n.locks = append([]*Term(nil), st.locks...)
+	if st.lockSnap != nil {
+		n.lockSnap = map[*Term]*Heap{}
+		for k, v := range st.lockSnap {
+			n.lockSnap[k] = v
+		}
+	}
 	n.fresh = make(map[*Term]bool, len(st.fresh))
 	for k, v := range st.fresh {
 		n.fresh[k] = v
@@ -220,6 +227,79 @@ type fnCtx struct {
 	abstracted bool
 	maxPaths int
 	loopNames map[*ssa.BasicBlock]map[string]nameBind
+	curBlock  *ssa.BasicBlock // top-frame position being executed (for write positions)
+	curIdx    int
+	writePos  map[string][]wpos
+	curHeader *ssa.BasicBlock // header the current path started from (nil: entry)
+	loopBlk   map[*ssa.BasicBlock]map[*ssa.BasicBlock]bool
+}
+
+type wpos struct {
+	b   *ssa.BasicBlock
+	idx int
+}
+
+// loopBlocks returns the natural loop of header h.
+func (x *fnCtx) loopBlocks(h *ssa.BasicBlock) map[*ssa.BasicBlock]bool {
+	if x.loopBlk == nil {
+		x.loopBlk = map[*ssa.BasicBlock]map[*ssa.BasicBlock]bool{}
+	}
+	if m, ok := x.loopBlk[h]; ok {
+		return m
+	}
+	m := map[*ssa.BasicBlock]bool{h: true}
+	var stack []*ssa.BasicBlock
+	for _, p := range h.Preds {
+		if h.Dominates(p) {
+			stack = append(stack, p)
+		}
+	}
+	for len(stack) > 0 {
+		b := stack[len(stack)-1]
+		stack = stack[:len(stack)-1]
+		if m[b] {
+			continue
+		}
+		m[b] = true
+		for _, p := range b.Preds {
+			stack = append(stack, p)
+		}
+	}
+	x.loopBlk[h] = m
+	return m
+}
+
+// writtenInLoop: is the heap component written inside the natural loop of h?
+func (x *fnCtx) writtenInLoop(name string, h *ssa.BasicBlock) bool {
+	if x.writes["*"] {
+		return true
+	}
+	lb := x.loopBlocks(h)
+	for _, p := range x.writePos[name] {
+		if p.b == nil || lb[p.b] {
+			return true
+		}
+	}
+	return false
+}
+
+// writesDominate: every write of the component happens before position (b, idx) on every path.
+func (x *fnCtx) writesDominate(name string, b *ssa.BasicBlock, idx int) bool {
+	for _, p := range x.writePos[name] {
+		if p.b == nil {
+			return false
+		}
+		if p.b == b {
+			if p.idx >= idx {
+				return false
+			}
+			continue
+		}
+		if !p.b.Dominates(b) {
+			return false
+		}
+	}
+	return true
 }
 
 func funcKey(fn *ssa.Function) (pkg, key string) {
@@ -422,6 +502,12 @@ func (x *fnCtx) heapArr(st *State, name string, sort Sort) *Term {
 
 func (x *fnCtx) setHeap(st *State, name string, t *Term) {
 	st.heap.m[name] = t
+	if x.collecting {
+		if x.writePos == nil {
+			x.writePos = map[string][]wpos{}
+		}
+		x.writePos[name] = append(x.writePos[name], wpos{x.curBlock, x.curIdx})
+	}
 	x.writes[name] = true
 }
 
@@ -474,12 +560,22 @@ func (x *fnCtx) load(st *State, a *Addr) *Val {
 		}
 	case AElem:
 		name := elemHeapName(t)
+		if a.ERoot != nil {
+			name = elemHeapName(a.ERoot)
+			start, n, _ := subLeaves(a.ERoot, a.Sub)
+			ls = layout(a.ERoot)[start : start+n]
+		}
 		for _, l := range ls {
 			arr := x.heapArr(st, name+l.Suffix, ArrSort(SInt, ArrSort(SInt, l.Sort)))
 			v.L = append(v.L, Select(Select(arr, a.Base), a.Idx))
 		}
 	case ACell:
 		name := cellHeapName(t)
+		if a.ERoot != nil {
+			name = cellHeapName(a.ERoot)
+			start, n, _ := subLeaves(a.ERoot, a.Sub)
+			ls = layout(a.ERoot)[start : start+n]
+		}
 		for _, l := range ls {
 			arr := x.heapArr(st, name+l.Suffix, ArrSort(SInt, l.Sort))
 			v.L = append(v.L, Select(arr, a.Base))
@@ -502,12 +598,22 @@ func (x *fnCtx) store(st *State, a *Addr, v *Val) {
 		}
 	case AElem:
 		name := elemHeapName(a.Elem)
+		if a.ERoot != nil {
+			name = elemHeapName(a.ERoot)
+			start, n, _ := subLeaves(a.ERoot, a.Sub)
+			ls = layout(a.ERoot)[start : start+n]
+		}
 		for i, l := range ls {
 			arr := x.heapArr(st, name+l.Suffix, ArrSort(SInt, ArrSort(SInt, l.Sort)))
 			x.setHeap(st, name+l.Suffix, Store(arr, a.Base, Store(Select(arr, a.Base), a.Idx, v.L[i])))
 		}
 	case ACell:
 		name := cellHeapName(a.Elem)
+		if a.ERoot != nil {
+			name = cellHeapName(a.ERoot)
+			start, n, _ := subLeaves(a.ERoot, a.Sub)
+			ls = layout(a.ERoot)[start : start+n]
+		}
 		for i, l := range ls {
 			arr := x.heapArr(st, name+l.Suffix, ArrSort(SInt, l.Sort))
 			x.setHeap(st, name+l.Suffix, Store(arr, a.Base, v.L[i]))
